@@ -134,8 +134,9 @@ def _get_mypy_asts(
         if ast is None:  # pragma: no cover
             raise ValueError
 
-        if ast.path.endswith("__init__.py"):
-            ast_package_path = ast.path.split("__init__.py")[0][:-1]
+        # Only the file "__init__.py" itself belongs to a package, a module like "my__init__.py" does not
+        if ast.path.replace("\\", "/").split("/")[-1] == "__init__.py":
+            ast_package_path = ast.path[: -len("__init__.py") - 1]
             if ast_package_path in package_paths:
                 package_ast.append(ast)
         elif ast.path in files:
